@@ -9,6 +9,7 @@ from ..axes import chain, flat_args, apply_perm, PERMUTERS
 from .. import terms
 
 ID = "C09"
+ANCHORS = 'ism._attribution_score,ism._edit_distance_one,ism.saturation_mutagenesis'.split(",")
 MIN_INSTANCES = 10
 EXPLANATION = (
     "R-AXES: the producer ism._edit_distance_one enumerates mutants with itertools.product; its operand order gives the "
